@@ -2329,7 +2329,9 @@ func c8DocPF(doc []byte) map[string]uint64 {
 		default:
 			continue
 		}
-		if len(txt) > 64 {
+		// (long STRINGS are left out to keep the op line short; a number literal is always listed, whatever its length: the
+		// model's `skipOk` asks the table about exponent literals in unknown members too)
+		if _, isNum := t.(json.Number); !isNum && len(txt) > 256 {
 			continue
 		}
 		if f, err := strconv.ParseFloat(txt, 64); err == nil {
